@@ -55,6 +55,7 @@ class Artifact(_Observable):
         super(Artifact, self)._check_object_constraints()
         self._check_mutually_exclusive_properties(['payload_bin', 'url'])
         self._check_properties_dependency(['hashes'], ['url'])
+        self._check_properties_dependency(['encryption_algorithm'], ['decryption_key'])
 
 
 class AutonomousSystem(_Observable):
